@@ -60,7 +60,8 @@ CliFile(f, nodump, t) ==
 Accepted(f) == IF DirRule = "last_ext" THEN f.ext \in DdlExt ELSE f.second \in DdlExt \cup {""}
 WriteAll(d, t, fs) == {e \in d : ~(e[1] = t /\ \E f \in fs : e[2] = DumpName(f))} \cup {<<t, DumpName(f), Result(f)>> : f \in fs}
 \* two accepted files with the same stem share one dump file: the later one wins; the specification does not order them
-SameStem == \E f, g \in Files : f # g /\ f.stem = g.stem
+\* (files that directory mode does not accept may share a stem with one it accepts: single-file operations on them overwrite the same dump)
+SameStem == \E f, g \in Files : f # g /\ f.stem = g.stem /\ Accepted(f) /\ Accepted(g)
 CliDir(nodump, t) ==
     /\ nops < MaxOps /\ ~SameStem
     /\ ret' = "none"
